@@ -1,20 +1,20 @@
----- MODULE MC_C01_quick_a_emb_free ----
+---- MODULE MC_C03_quick_d_int_of_pairs ----
 EXTENDS CircuitSys
 c_Dom == <<2, 2>>
 c_KSet == {1, 2}
 c_MaxK == 8
 c_MaxL == 4
 c_MaxIn == 2
-c_InKindSeq == <<"emb">>
-c_InnerKinds == {"had", "kron", "mix", "sum"}
+c_InKindSeq == <<"emb", "catp">>
+c_InnerKinds == {"sum"}
 c_MaxAr == 2
-c_FreeOrder == TRUE
-c_MaxOuts == 2
-c_MaxBases == 1
-c_MaxOps == 0
-c_OpSet == {}
+c_FreeOrder == FALSE
+c_MaxOuts == 1
+c_MaxBases == 2
+c_MaxOps == 2
+c_OpSet == {"integrate", "multiply"}
 c_Scheme == 1
-c_OnlySD == FALSE
+c_OnlySD == TRUE
 c_PolyDeg == 1
 c_DiffK == {1}
 c_MaxDeg == 2
@@ -25,8 +25,8 @@ c_NVer == 2
 c_GradMod == 0
 c_QueryOn == FALSE
 c_J == 1
-c_EmitOps == {0}
-c_EmitMod == 16
+c_EmitOps == {2}
+c_EmitMod == 60
 c_EmitRes == 0
-c_EmitSmall == 3
+c_EmitSmall == 0
 ====
